@@ -259,7 +259,7 @@ def cbmc_cmd(job: Job, gb: str, trace=True) -> List[str]:
         cmd += ["--object-bits", str(job.object_bits)]
     if trace:
         cmd += ["--trace"]
-    cmd += job.solver
+    cmd += (job.solver or os.environ.get('VERIF_SOLVER', '').split())
     cmd += job.flags
     return cmd
 
@@ -270,26 +270,38 @@ def run_job(job: Job, workdir: str, keep_log_dir: Optional[str] = None) -> JobRe
     if gb is None:
         return JobResult(job, "BUILD_ERROR", detail=blog[-4000:], wall=time.time() - t0, log=blog)
     fns = list_functions(gb, job.entry)
-    cmd = cbmc_cmd(job, gb)
-    tcmd = ["/usr/bin/time", "-f", "MAXRSS_KB=%M", "-o", gb + ".time"] + cmd
+    dev_cap = int(os.environ.get('VERIF_DEV_TIMEOUT', '1000000'))
+    # solver portfolio: MiniSat (CBMC's default) occasionally stalls for tens of minutes on a formula that
+    # CaDiCaL decides in two (and vice versa).  Unless the job pins a solver, the default gets a third of
+    # the budget and CaDiCaL the full budget afterwards; the evidence records which one decided.
+    attempts = [(job.solver, job.timeout)]
+    if not job.solver and not os.environ.get('VERIF_SOLVER'):
+        attempts = [([], max(180, job.timeout // 4)), (["--sat-solver", "cadical"], job.timeout)]
     outp = gb + ".out"
     verdict_detail = ""
-    with open(outp, "w") as fo:
-        try:
-            p = subprocess.Popen(tcmd, stdout=fo, stderr=subprocess.STDOUT, preexec_fn=_limit(job.mem_gb))
-            _CHILDREN.add(p)
+    for (solver, budget) in attempts:
+        j2 = job if solver == job.solver else dataclasses.replace(job, solver=solver)
+        cmd = cbmc_cmd(j2, gb)
+        tcmd = ["/usr/bin/time", "-f", "MAXRSS_KB=%M", "-o", gb + ".time"] + cmd
+        verdict_detail = ""
+        with open(outp, "w") as fo:
             try:
-                p.wait(timeout=min(job.timeout, int(os.environ.get('VERIF_DEV_TIMEOUT', '1000000'))))
-            except subprocess.TimeoutExpired:
+                p = subprocess.Popen(tcmd, stdout=fo, stderr=subprocess.STDOUT, preexec_fn=_limit(job.mem_gb))
+                _CHILDREN.add(p)
                 try:
-                    os.killpg(p.pid, 9)
-                except Exception:
-                    p.kill()
-                p.wait()
-                verdict_detail = "timeout after %ds" % job.timeout
-            _CHILDREN.discard(p)
-        except Exception as e:  # pragma: no cover
-            verdict_detail = "spawn error %r" % (e,)
+                    p.wait(timeout=min(budget, dev_cap))
+                except subprocess.TimeoutExpired:
+                    try:
+                        os.killpg(p.pid, 9)
+                    except Exception:
+                        p.kill()
+                    p.wait()
+                    verdict_detail = "timeout after %ds (%s)" % (min(budget, dev_cap), " ".join(solver) or "default solver")
+                _CHILDREN.discard(p)
+            except Exception as e:  # pragma: no cover
+                verdict_detail = "spawn error %r" % (e,)
+        if not verdict_detail.startswith("timeout"):
+            break
     txt = open(outp, errors="replace").read()
     rss = 0
     try:
